@@ -104,6 +104,11 @@ theorem C10_decimal_default : toNumberRule none none none = .decimal (.num 38) (
 theorem finding_to_number_numeric_truncates : roundHalfAway 12345 10 = 1235 ∧ truncDiv 12345 10 = 1234 ∧
     roundHalfAway (-25) 10 = -3 ∧ truncDiv (-25) 10 = -2 := by decide
 
+/-- C10/to-number-round-overflow — '99.995' as DECIMAL(4,2): the truncated mantissa fits 4 digits, the rounded one
+    (10000) does not; DuckDB checks before rounding and returns 100.00 -/
+theorem finding_to_number_round_overflow :
+    fitsDigits (truncDiv 99995 10) 4 = true ∧ fitsDigits (roundHalfAway 99995 10) 4 = false := by decide
+
 /-! ### DATEADD -/
 
 def C10_dateadd_type_Full : Prop := ∀ u s, dateaddImpl u s = dateaddSpec u s
@@ -131,6 +136,10 @@ theorem C10_dateadd_type_full_false : ¬ C10_dateadd_type_Full := by
 /-- **EQUAL_NULL = IS NOT DISTINCT FROM**, for every type and all values incl. NULL -/
 theorem C10_equal_null {α} [DecidableEq α] (a b : Option α) : isNotDistinct a b = equalNullSpec a b := by
   cases a <;> cases b <;> simp [isNotDistinct, equalNullSpec]
+
+/-- C10/equal-null-created-database — the macro exists only in databases created by connect() -/
+theorem finding_equal_null_created_database : equalNullAvailable .connect = true ∧ equalNullAvailable .createStatement = false :=
+  ⟨rfl, rfl⟩
 
 /-! ### VALUES -/
 
@@ -184,6 +193,9 @@ theorem finding_random :
     (randomImpl [.lit 1, .lit 1]).rewritten = [true, false] ∧ randomSpecRewritten [.lit 1, .lit 1] = [true, true] ∧
     (randomImpl [.other]).seed = none := by decide
 
+/-- C10/random-nested-select — directly under one SELECT the call is wrapped once; in a CTE/subquery twice -/
+theorem finding_random_nested_select : randomWraps 1 = 1 ∧ randomWraps 2 = 2 := ⟨rfl, rfl⟩
+
 theorem C10_random_full_false : ¬ C10_random_Full := by
   intro h; have := h [.lit 1, .lit 1]; revert this; decide
 
@@ -234,9 +246,11 @@ private def ruleW : X → Option X
 example : (Cx.n2r 1 (.n1 7 (.leaf 0)) (.n3m 2 (.leaf 1) .hole (.leaf 2))).quiet ruleW (.n1 7 (.leaf 5)) := by
   simp [Cx.quiet, ruleW]
 
-/-- C10/nested-same-construct — the hypothesis is needed: a construct nested directly inside ANOTHER instance of the
-    same rewritten construct is not rewritten (the replaced outer node is not descended into) -/
-theorem finding_nested_same_construct :
+/-- the hypothesis is needed: a construct nested directly inside ANOTHER instance of the same rewritten construct is
+    not rewritten (the replaced outer node is not descended into).  For the constructs of C10 this is not observable
+    (sqlglot's DuckDB generator renders the left-over inner node acceptably); C11's chained subscripts are the
+    observable instance. -/
+theorem C10_context_hypothesis_needed :
     topDownX ruleW (.n1 7 (.n1 7 (.leaf 0))) = .n1 8 (.n1 7 (.leaf 0)) := by decide
 
 end Fs.C10
